@@ -182,6 +182,18 @@ for t in range(N):
             leg.violation(desc, f"second extract raised {e!r}"); continue
         if [f.pyframe for f in st2.frames] != got:
             leg.violation(desc, f"a second extraction of the same item differs from the first: {len(st2.frames)} frames, then {len(got)}; tree={desc}")
+# more than 100 unwrap layers that DO make progress (every layer contributes a frame and then another wrapper, like a deep
+# await chain): the guard counts unwrapping WITHOUT progress, not depth
+for deep in (99, 100, 101, 130, 250):
+    ELAB.clear()
+    leg.case(("deep-nesting", deep), True)
+    layers = [mkframe() for _ in range(deep + 1)]
+    node = layers[-1]
+    for fr_ in reversed(layers[:-1]):
+        node = Item(("tuple", [fr_, node]))
+    std = stackscope.extract(node, with_contexts=False)
+    if [f.pyframe for f in std.frames] != layers or std.error is not None or std.leaf is not None:
+        leg.violation(("deep-nesting", deep), f"{deep} nested wrappers, one frame per layer: {len(std.frames)} frames of {len(layers)}, leaf={std.leaf!r}, error={std.error!r}")
 # linear self-unwrapping ends with an error instead of hanging
 class Loop:
     pass
